@@ -67,6 +67,8 @@ def wipe():
     insp = sa.inspect(eng)
     with eng.begin() as conn:
         for t in insp.get_table_names():
+            if t in ('mistral_metrics', 'alembic_version'):
+                continue     # framework tables (maintenance status): an empty one puts the API in maintenance mode
             conn.execute(sa.text('DELETE FROM %s' % t))
     try:
         sqlite_lock.cleanup()
